@@ -19,7 +19,7 @@ LEVEL_TEXT = ('The selection function has a finite domain once the 13 action-fla
               '<= 1, 7 or four chosen pairs of severity groups. The reference is the statement in set form, not the chain of '
               'early returns. The command-line binding (option -> configuration) is checked for all 64 switch sets x 10 -S '
               'lists by counting a 60-PEL directory, 64 of those replayed through the real executable.')
-LEVEL_NOTE = ('action-flag bits other than 0x8000/0x4000/0x2000 only as all-0 or all-1; look-ups combined with selection '
+LEVEL_NOTE = ('action-flag bits other than 0x8000/0x4000/0x2000 only as all-0, all-1 or (thorough) one at a time; look-ups combined with selection '
               'options are not constrained')
 RULE = ('tuples (severity 0..255, flags in 8 combos of {0x8000,0x4000,0x2000} x {other bits 0, other bits 1}, switches E s N H '
         't O in 2^6, group subset); look-up clause: 5 look-up kinds x 256 x 16 with no option. Non-trivial: every tuple '
@@ -51,8 +51,14 @@ def bounds(tier):
             'tuples': 256 * len(FLAGSETS) * 64 * len(subsets(tier))}
 
 
+OTHER_BITS = [1 << b for b in range(13)]
+
+
 def plan(tier, seed):
     ch = [{'k': 'product', 'lo': lo, 'hi': lo + 8, 'tier': tier} for lo in range(0, 256, 8)]
+    if tier == 'thorough':
+        # each of the 13 action-flag bits the rules do not mention, alone, with every rule-bit combination
+        ch += [{'k': 'product', 'lo': lo, 'hi': lo + 8, 'tier': 'quick', 'onehot': True} for lo in range(0, 256, 8)]
     ch.append({'k': 'lookup'})
     for part in range(8):
         ch.append({'k': 'cli', 'part': part, 'parts': 8})
@@ -117,7 +123,8 @@ def run_chunk(chunk):
         selected = ref.selected
         core.arm(600)
         for sev in range(chunk['lo'], chunk['hi']):
-            for flags in FLAGSETS:
+            for flags in (FLAGSETS if not chunk.get('onehot') else
+                          [a | b | c | o for a in (0, 0x8000) for b in (0, 0x4000) for c in (0, 0x2000) for o in OTHER_BITS]):
                 uh = make_uh(pt, sev, flags)
                 for sw in swsets:
                     cfg = make_cfg(sw, ())
